@@ -143,18 +143,28 @@ def normAttr (loose : Bool) (kv : Str × Str) : Str × Str :=
 
 def dictOf (attrs : List (Str × Str)) : List (Str × Str) := attrs.foldl (fun d kv => sset d kv.1 kv.2) []
 
-/-- context dict selector of `_get_context` restricted to the modelled flags -/
+/-- update `entries[-1]` (nothing to update when there is no entry) -/
+def updHead (f : Entry → Entry) : List Entry → List Entry
+  | [] => []
+  | e :: rest => f e :: rest
+
+/-- context dict selector of `_get_context` restricted to the modelled flags: `entries[-1]` inside an
+entry (`inentry` implies `entries ≠ []`, see Props/C01), else the feed -/
 def setContext (s : MSt) (k : Str) (v : V) : MSt :=
-  if s.inentry then
-    match s.entries with
-    | e :: rest => { s with entries := { e with d := fset e.d k v } :: rest }
-    | [] => s            -- unreachable: inentry ⇒ entries ≠ []  (invariant, Props/C01)
+  if s.inentry then { s with entries := updHead (fun e => { e with d := fset e.d k v }) s.entries }
   else { s with feed := fset s.feed k v }
 
 /-- `_map_to_standard_prefix(name)` then `attrs_d.get` -/
 def getAttribute (s : MSt) (attrsD : List (Str × Str)) (name : Str) : Option Str :=
   let (p, suf) := splitTag name
   sget attrsD (if name.contains ':' then ((sget s.nsMap (some p)).getD p) ++ [':'] ++ suf else name)
+
+/-- the `property_depth_map` rule (mixin.py:633-640): store unless the key was already stored from a
+shallower element of this entry -/
+def writeEntry (element output : Str) (depth : Int) (e : Entry) : Entry :=
+  let old := (e.depths.find? (·.1 == element)).map (·.2)
+  let write := match old with | none => true | some od => depth ≤ od
+  if write then { d := fset e.d element (.s output), depths := (e.depths.filter (·.1 != element)) ++ [(element, depth)] } else e
 
 /-! ### pop (mixin.py:485-661) for the modelled situations (`incontent = 0`, empty contentparams) -/
 def pop (o : Ops) (s : MSt) (element : Str) : MSt :=
@@ -168,16 +178,7 @@ def pop (o : Ops) (s : MSt) (element : Str) : MSt :=
     let output1 := if canBeRelativeUri.contains element && !output0.isEmpty && element != S "id" then o.join s.base.baseuri.toList output0 else output0
     let output := o.fix output1
     if element == S "category" || element == S "tags" || element == S "itunes_keywords" then s1 else
-    if s1.inentry then
-      match s1.entries with
-      | e :: es =>
-        let old := (e.depths.find? (·.1 == element)).map (·.2)
-        let write := match old with | none => true | some od => s1.depth ≤ od
-        if write then
-          { s1 with entries := { d := fset e.d element (.s output),
-                                 depths := (e.depths.filter (·.1 != element)) ++ [(element, s1.depth)] } :: es }
-        else s1
-      | [] => s1
+    if s1.inentry then { s1 with entries := updHead (writeEntry element output s1.depth) s1.entries }
     else if s1.infeed then { s1 with feed := fset s1.feed element (.s output) }
     else s1
 
